@@ -111,6 +111,31 @@ func hasLoneCR(s string) bool {
 	return false
 }
 
+// numberThenWord: a decimal number literal directly followed by a word
+// ("1and 2", "2instanceof A") is two tokens in PHP; no separator is needed
+// unless the word could continue the literal (exponent, 0x / 0b prefixes, "_").
+func numberThenWord(a, b *token.Token) bool {
+	if a.ID != token.T_LNUMBER && a.ID != token.T_DNUMBER {
+		return false
+	}
+	for _, c := range a.Value {
+		if !isDigit(c) && c != '.' {
+			return false
+		}
+	}
+	if len(b.Value) == 0 {
+		return false
+	}
+	c := b.Value[0]
+	if !((c >= 'a' && c <= 'z') || (c >= 'A' && c <= 'Z')) || c == 'e' || c == 'E' {
+		return false
+	}
+	if len(a.Value) == 1 && a.Value[0] == '0' && (c == 'x' || c == 'X' || c == 'b' || c == 'B') {
+		return false
+	}
+	return true
+}
+
 func isDigit(c byte) bool { return c >= '0' && c <= '9' }
 
 var wsChoices = []string{" ", " ", "  ", "\t", "\n", "\n", "\r\n", "\r", "\n\n", " \t ", "\n    ", "\r\n\t", " \v", "\f ", "\n\r"}
@@ -312,7 +337,7 @@ func (g *Gen) Render(root *ast.Root, pol Policy) *Layout {
 			}
 		default:
 			kind := g.gaps[t]
-			must := prev != nil && mustSeparate(prev.Value, t.Value)
+			must := prev != nil && mustSeparate(prev.Value, t.Value) && !numberThenWord(prev, t)
 			if prev != nil && g.legacyEnds[prev] {
 				if bytes.Equal(t.Value, []byte(";")) {
 					kind = GapNone
